@@ -160,3 +160,19 @@ def run(ctx):
         probs.append("an ID_HEADER could not be evaluated")
     ctx.add("R13.5", "C13/id-headers-distinct", not probs, "; ".join(probs), facts={"headers": {str(k): v for k, v in ids.items()}})
 import re
+
+# ---- R13.7 (shared with C09 R09.4 / R09.3): the id text is base64url — the decoder's alphabet and error discipline are the strict ones
+_run_c13 = run
+def run(ctx):
+    _run_c13(ctx)
+    import b64rules
+    class Scratch:
+        def __init__(s): s.findings = []; s.world = ctx.world; s.crates = ctx.crates; s.analysed = {"functions": 0, "paths": 0, "call_sites": 0}; s.notes = []; s.tier = ctx.tier; s.facts_dir = ctx.facts_dir
+        def add(s, rule, k, ok, detail="", site=None, facts=None): s.findings.append((rule, k, ok, detail, site))
+        def sample(s, x): pass
+    sc = Scratch()
+    b64rules.run(sc)
+    for (rule, k, ok, detail, site) in sc.findings:
+        if rule in ("R09.3", "R09.4"):
+            ctx.add("R13.7", "C13/id-text-base64/" + k.rsplit("/", 1)[-1], ok, detail, site)
+FLOORS["R13.7"] = 8
